@@ -407,7 +407,7 @@ def _case_noise(rng, s):
 
 
 def gen_random(rng, n, npred=2, share=0.5, argp=0.45, quant=0.3, cargp=0.15, propp=0.4, iconp=0.25,
-               selfp=0.08, missing_arg0=False, shared_ivs=False):
+               selfp=0.08, missing_arg0=False, shared_ivs=False, unboundq=0.12):
     """random MRS over a small predicate alphabet (so that near-symmetric structures are common)"""
     preds = rng.sample(["_p_v_1", "_q_n_1", "_r_a_1", "named", "_and_c"], npred)
     nh = [0]
@@ -457,17 +457,31 @@ def gen_random(rng, n, npred=2, share=0.5, argp=0.45, quant=0.3, cargp=0.15, pro
             if rng.random() < 0.6:
                 args.append(["BODY", newh()])
             rels.append(ep(rng.choice(["_the_q", "_a_q"]), newh(), args))
+    unbound = []
+    if rng.random() < unboundq:
+        # a quantifier whose bound variable is no other predication's intrinsic variable ("Some bark.")
+        xv = ["x", 80 + rng.randrange(3)]
+        hole = newh()
+        if labels:
+            hcons.append([hole, "qeq", rng.choice(labels)])
+        rels.append(ep(rng.choice(["_some_q", "_the_q"]), newh(), [["ARG0", xv], ["RSTR", hole]]))
+        unbound.append(xv)
+        if n and rng.random() < 0.7:
+            e = rng.choice(rels[:n])
+            free = [r for r in ("ARG1", "ARG2", "ARG3") if r not in {x for x, _ in e["args"]}]
+            if free:
+                e["args"].append([free[0], xv])
     if missing_arg0 and rels:
         e = rng.choice(rels)
         if not is_quant(e):
             e["args"] = [a for a in e["args"] if a[0] != "ARG0"]
     variables = []
     seen = []
-    for iv in ivs:
+    for iv in ivs + unbound:
         if tv(iv) in seen:
             continue
         seen.append(tv(iv))
-        if rng.random() < propp:
+        if rng.random() < (propp if iv not in unbound else 0.9):
             menu = X_PROPS if iv[0] == "x" else E_PROPS
             ps = [[_case_noise(rng, k), _case_noise(rng, rng.choice(vals))] for k, vals in menu if rng.random() < 0.6]
             rng.shuffle(ps)
@@ -537,9 +551,10 @@ def gen_star(rng, arms, depth):
     return {"top": ["h", 0], "index": head_iv, "rels": rels, "hcons": hcons, "icons": [], "vars": []}
 
 
-def gen_copies(rng, k, size):
+def gen_copies(rng, k, size, lean=False):
     """k disjoint copies of one random component (identical up to renaming)"""
-    comp = gen_random(rng, size, npred=rng.choice([1, 2]), quant=0.2, iconp=0.0)
+    comp = gen_random(rng, size, npred=rng.choice([1, 2]), quant=0.0 if lean else 0.2, iconp=0.0,
+                      unboundq=0.0 if lean else 0.12)
     out = {"top": ["h", 0], "index": None, "rels": [], "hcons": [], "icons": [], "vars": []}
     for c in range(k):
         cj = copy.deepcopy(comp)
@@ -607,7 +622,9 @@ def gen_family(rng, fam, big=False):
         return gen_star(rng, rng.choice([2, 3]), rng.choice([1, 2]))
     if fam == "copies":
         if big:
-            return gen_copies(rng, rng.choice([3, 4, 5]), rng.choice([2, 3, 4]))
+            # k identical components make a non-isomorphic pair exponentially expensive for the matcher (and far
+            # more so for the interpreted model): keep k * size small
+            return gen_copies(rng, 3, rng.choice([2, 3]), lean=True)
         return gen_copies(rng, rng.choice([2, 3]), rng.choice([1, 2]))
     if fam == "mutual":
         return gen_mutual(rng, rng.choice([2, 3, 4, 5]) if not big else rng.randrange(8, 20))
@@ -797,6 +814,110 @@ def canon_graph(g):
                   for n, d in g.items())
 
 
+# ---------------------------------------------------------------- deterministic blocks (round 4)
+
+def negation_chain(k, tail_args=False):
+    """"not not ... leave": k locally identical scopal predications stacked over one verb; the copies
+    differ only by their distance from the verb (distant context)."""
+    rels, hcons = [], [[["h", 0], "qeq", ["h", 1]]]
+    for i in range(k):
+        lbl, hole, nxt = ["h", 1 + 2 * i], ["h", 2 + 2 * i], ["h", 3 + 2 * i]
+        rels.append(ep("neg", lbl, [["ARG0", ["e", 50 + i]], ["ARG1", hole]]))
+        hcons.append([hole, "qeq", nxt])
+    args = [["ARG0", ["e", 90]]]
+    if tail_args:
+        args.append(["ARG1", ["x", 91]])
+    rels.append(ep("_leave_v_1", ["h", 1 + 2 * k], args))
+    if tail_args:
+        rels.append(ep("_kim_n_1", ["h", 40], [["ARG0", ["x", 91]]]))
+    return {"top": ["h", 0], "index": ["e", 90], "rels": rels, "hcons": hcons, "icons": [], "vars": []}
+
+
+def modifier_chain(k):
+    """k identical intersective modifiers in a row: each takes the next one's variable (a path, not a ring)"""
+    rels = [ep("_very_x_deg", ["h", 1], [["ARG0", ["e", 10 + i]], ["ARG1", ["e", 11 + i]]]) for i in range(k)]
+    rels.append(ep("_big_a_1", ["h", 1], [["ARG0", ["e", 10 + k]], ["ARG1", ["x", 70]]]))
+    rels.append(ep("_dog_n_1", ["h", 1], [["ARG0", ["x", 70]]]))
+    return {"top": ["h", 0], "index": ["x", 70], "rels": rels, "hcons": [[["h", 0], "qeq", ["h", 1]]], "icons": [],
+            "vars": []}
+
+
+def some_bark(pers="3", num="pl"):
+    """fragment "Some bark.": the quantifier's bound variable is no other predication's intrinsic variable"""
+    return {"top": ["h", 0], "index": ["e", 2],
+            "rels": [ep("_some_q", ["h", 4], [["ARG0", ["x", 3]], ["RSTR", ["h", 5]], ["BODY", ["h", 6]]]),
+                     ep("_bark_v_1", ["h", 1], [["ARG0", ["e", 2]], ["ARG1", ["x", 3]]])],
+            "hcons": [[["h", 0], "qeq", ["h", 1]]], "icons": [],
+            "vars": [[["x", 3], [["PERS", pers], ["NUM", num]]], [["e", 2], [["TENSE", "pres"]]]]}
+
+
+def det_blocks():
+    """deterministic cases of every tier (fixed random source: the same cases on every run)"""
+    drng = random.Random(424242)
+
+    def pair(sub, fam, m1, m2, props=True):
+        return {"kind": "pair", "sub": sub, "family": fam, "m1": m1, "m2": m2, "props": props,
+                "seed": drng.randrange(1 << 30), "big": False}
+    # (a) locally identical predications distinguished only by distant context, under many renamings: whichever
+    # copy the matcher tries first, some renaming makes it the wrong one, so the search has to backtrack
+    structs = [negation_chain(k, t) for k in (2, 3, 4) for t in (False, True)] + [modifier_chain(k) for k in (2, 3, 4)]
+    for m in structs:
+        for _ in range(6):
+            yield pair("renamed", "distant-context", rename_shuffle(drng, m), rename_shuffle(drng, m), drng.random() < 0.5)
+        for what in ("argtarget", "hcons", "label", "pred"):
+            mu = mutate(drng, m, what)
+            if mu is not None and in_space(mu):
+                yield pair("mutant:" + what, "distant-context", rename_shuffle(drng, m), rename_shuffle(drng, mu))
+    # (b) a quantifier over a variable that is nobody's intrinsic variable; one property value changed
+    base = some_bark()
+    for other, sub in ((some_bark(pers="1"), "mutant:prop"), (some_bark(num="sg"), "mutant:prop"),
+                       (some_bark(), "renamed")):
+        for props in (True, False):
+            yield pair(sub, "unbound-quantifier", base, rename_shuffle(drng, other), props)
+    # (c) bags with repeated members
+    a, b, c = negation_chain(2), some_bark(), modifier_chain(2)
+    a_surface = copy.deepcopy(a)
+    a_surface["rels"][0]["surface"] = "not"          # ignored by MRS.__eq__ and by isomorphism
+    ren = lambda m: rename_shuffle(drng, m)          # noqa: E731
+    bags = [
+        ("dup-equal", [a], [a, a], False),                     # the same reading twice, equal but distinct objects
+        ("dup-same-object", [a], [a, a], True),                # the same object twice
+        ("dup-equal", [a, a], [a], False),
+        ("dup-equal", [a, a, b], [a, b, a, a], False),
+        ("dup-up-to-eq", [a], [a, a_surface, c], False),       # twice up to what MRS.__eq__ ignores
+        ("dup-renamed", [a, b], [ren(a), ren(a), ren(b)], False),
+        ("dup-same-object", [a, b, a], [b, a, a], True),
+        ("dup-equal", [b, b, b], [b, b], False),
+    ]
+    for sub, test, gold, share in bags:
+        for props in (True, False):
+            yield {"kind": "bags", "sub": sub, "test": copy.deepcopy(test), "gold": copy.deepcopy(gold),
+                   "props": props, "share_objects": share}
+    for members in ([a, a], [a, a, b], [b, c, b, c, b]):
+        gold = [ren(m) for m in members]
+        drng.shuffle(gold)
+        yield {"kind": "bags", "sub": "selfcopy", "test": copy.deepcopy(members), "gold": gold, "props": True,
+               "share_objects": False}
+
+
+def want_all_shared(ct, cg):
+    return ct == cg
+
+
+def build_bag(js, share):
+    """MRS objects of a bag; with `share`, members with the same JSON text are ONE object"""
+    cache, out = {}, []
+    for j in js:
+        k = json.dumps(j, sort_keys=True)
+        if share and k in cache:
+            out.append(cache[k])
+            continue
+        o = semgen.mrs_from_json(copy.deepcopy(j))
+        cache[k] = o
+        out.append(o)
+    return out
+
+
 class Nonterminating(Exception):
     pass
 
@@ -847,7 +968,12 @@ class C06(Check):
             "constants with properties, semgen scope trees, mildly ill-formed (one EP without ARG0, unbound "
             "variables, missing top); 0-7 predications for the exhaustive oracle (all structures with <= 2 "
             "predications over 2 predicates enumerated), 8-40 for the invariance clauses; bags of 0-6 structures with "
-            "planted renamed copies; 30% of the structures over a non-ASCII alphabet of predicates / constants / "
+            "planted renamed copies and repeated members (equal JSON as distinct objects or as ONE object twice, members "
+            "equal up to what MRS.__eq__ ignores, renamed copies); deterministic blocks in every tier: stacks of 2-4 "
+            "locally identical scopal or modifier predications distinguished only by distant context ('not not leave') "
+            "under 6 renamings each plus mutants, a quantifier over a variable that is no intrinsic variable ('Some "
+            "bark.') with one property value changed, bags with repeated members; random structures get such an unbound "
+            "quantifier with properties with probability 0.12; 30% of the structures over a non-ASCII alphabet of predicates / constants / "
             "property values (ß/ss, ς/σ/Σ, ﬁ/fi, ſ/s, İ/ı/i, Kelvin sign, é vs e+U+0301, full-width, ǆ/ǅ) and the "
             "single-point mutations predtwin/cargtwin/proptwin/roletwin replace ONE character by its case, casefold, "
             "NFC or NFKC twin. Non-trivial: at least one predication; distinct by JSON text.")
@@ -868,10 +994,15 @@ class C06(Check):
         "soundness theorem assumes edge labels that cannot be confused with the '--' inverse marker "
         "(checked by the driver on every case: always true for generated structures)",
         "proved for the model: soundness, completeness, exactness w.r.t. isomorphism of the encoding graphs, "
-        "reflexive/symmetric/transitive, never raises; NOT proved (direct oracle only): that renaming variables / "
-        "reordering predications of an MRS yields an isomorphic encoding graph, that isomorphic MRSs pass the four "
-        "size pre-checks, and the reading of a graph isomorphism as an MRS isomorphism (exhaustive bijection search "
-        "on the MRS objects up to 7 predications)",
+        "reflexive/symmetric/transitive, never raises; the encoding graph is characterised as a replay of writes "
+        "and from that: a renamed MRS (injective renaming) and an MRS with reordered RELS/HCONS/ICONS are reported "
+        "isomorphic, and a True verdict preserves the multiset of predication node labels (predicate, constant, "
+        "properties) so that one changed label is always rejected; hypotheses NamesOK / NoParallel / rowsOK "
+        "(lean/Verif/C06/Spec.lean) are evaluated by the driver on every generated in-space case and must hold",
+        "NOT proved (direct oracle only): that a True verdict also preserves labels-as-scopes, role-labelled "
+        "arguments and handle/individual constraints at the MRS level (the graph-level statement is proved), and that "
+        "isomorphic MRSs pass the four size pre-checks (exhaustive bijection search on the MRS objects up to 7 "
+        "predications)",
     ]
     trusted_base = ["hand-written model lean/Verif/C06/Model.lean, tied to delphin.util._vf2* and "
                     "delphin.mrs._operations by the correspondence run (graph, augmented graph, mapping, verdict)",
@@ -969,6 +1100,7 @@ class C06(Check):
             o = small[(idx * 31 + 7) % len(small)]
             yield {"kind": "pair", "sub": "unrelated", "family": "enum", "m1": m, "m2": rename_shuffle(drng, o),
                    "props": True, "seed": idx, "big": False}
+        yield from det_blocks()
         # deterministic: every twin pair in every slot (predicate, constant, property value, role)
         for k, (a, b) in enumerate(TWINS):
             for slot in ("pred", "carg", "prop", "role"):
@@ -1036,7 +1168,19 @@ class C06(Check):
             gold = [rename_shuffle(rng, mutate(rng, m, "pred", fresh=True) or m) for m in test[: rng.randrange(4)]]
         else:
             gold = [rename_shuffle(rng, rng.choice(pool)) for _ in range(rng.choice([0, 1, 2, 3, 4, 5]))]
-        return {"kind": "bags", "sub": sub, "test": test, "gold": gold, "props": rng.random() < 0.7}
+        share = False
+        if rng.random() < 0.45 and (gold or test):
+            # repeated members: equal JSON (equal but distinct objects, or one object twice), or renamed copies
+            share = rng.random() < 0.4
+            for bag in (gold, test):
+                for _ in range(rng.choice([0, 1, 1, 2])):
+                    if bag:
+                        m = rng.choice(bag)
+                        bag.insert(rng.randrange(len(bag) + 1),
+                                   copy.deepcopy(m) if rng.random() < 0.7 else rename_shuffle(rng, m))
+            sub = sub + "+dup"
+        return {"kind": "bags", "sub": sub, "test": test, "gold": gold, "props": rng.random() < 0.7,
+                "share_objects": share}
 
     def search_cases(self, rng, tier, n, seeds):
         fams = sorted({c.get("family") for c in seeds if c.get("kind") == "pair" and c.get("family") in FAMILIES})
@@ -1065,8 +1209,8 @@ class C06(Check):
     # ---- implementation
     def impl(self, case):
         if case["kind"] == "bags":
-            test = [semgen.mrs_from_json(copy.deepcopy(j)) for j in case["test"]]
-            gold = [semgen.mrs_from_json(copy.deepcopy(j)) for j in case["gold"]]
+            test = build_bag(case["test"], case.get("share_objects"))
+            gold = build_bag(case["gold"], case.get("share_objects"))
             try:
                 with time_limit(LIMIT):
                     return list(_mrs.compare_bags(test, gold, properties=case["props"]))
@@ -1103,6 +1247,10 @@ class C06(Check):
         if case["kind"] == "pair" and isinstance(answer, dict) and "g1" in answer:
             answer = dict(answer)
             clean = answer.pop("clean", None)
+            hyps = answer.pop("hyps", None)
+            if hyps is not True and case.get("oracle") != "skip":
+                return {"model": "the input-space hypotheses of the encoding theorems (NamesOK, NoParallel, rowsOK) "
+                                 "are false on a generated in-space case", "case": case}
             for k in ("g1", "a1"):
                 answer[k] = sorted([n, sorted(es, key=lambda p: (p[0] is not None, p[0] or ""))] for n, es in answer[k])
             if clean is not True and case.get("oracle") != "skip":
@@ -1184,8 +1332,8 @@ class C06(Check):
         if s + g != len(gold):
             fail("bags: shared + unique-gold = size of gold", [s, g, len(gold)])
         # lists variant agrees with the counts
-        t_objs = [semgen.mrs_from_json(copy.deepcopy(j)) for j in test]
-        g_objs = [semgen.mrs_from_json(copy.deepcopy(j)) for j in gold]
+        t_objs = build_bag(test, case.get("share_objects"))
+        g_objs = build_bag(gold, case.get("share_objects"))
         if props:
             dflt = list(_mrs.compare_bags([semgen.mrs_from_json(copy.deepcopy(j)) for j in test],
                                           [semgen.mrs_from_json(copy.deepcopy(j)) for j in gold]))
@@ -1194,7 +1342,7 @@ class C06(Check):
         lu, ls, lg = _mrs.compare_bags(t_objs, g_objs, properties=props, count_only=False)
         if [len(lu), len(ls), len(lg)] != [u, s, g]:
             fail("bags: count_only=False returns lists of the same sizes", [[len(lu), len(ls), len(lg)], res])
-        if any(x not in t_objs for x in lu + ls) or any(x not in g_objs for x in lg):
+        if any(not any(x is y for y in t_objs) for x in lu + ls) or any(not any(x is y for y in g_objs) for x in lg):
             fail("bags: the returned lists are drawn from the respective bags", None)
         # shared = size of a maximum matching = sum over classes of min(count) (classes by exhaustive search)
         classes = []      # representative json
@@ -1216,7 +1364,7 @@ class C06(Check):
             want = sum(min(ct[k], cg[k]) for k in range(len(classes)))
             if want != s:
                 fail("bags: shared equals the number of pairs matchable up to isomorphism", {"want": want, "got": s})
-        if case.get("sub") == "selfcopy" and [u, s, g] != [0, len(test), 0]:
+        if (case.get("sub") == "selfcopy" or (ok and want_all_shared(ct, cg))) and [u, s, g] != [0, len(test), 0]:
             fail("bags: a bag compared with a renamed, shuffled copy of itself is entirely shared", res)
 
     # ---- findings
@@ -1240,6 +1388,12 @@ class C06(Check):
             inc("alphabet:non-ASCII, model %s" % ("compared" if all(model_covers(j) for j in structs) else "skipped (case map of non-ASCII letters)"))
         if case["kind"] == "bags":
             inc("bags:" + case.get("sub", ""))
+            for nm in ("test", "gold"):
+                texts = [json.dumps(j, sort_keys=True) for j in case[nm]]
+                if len(set(texts)) < len(texts):
+                    inc("bags:%s has ==-equal members" % nm)
+            if case.get("share_objects"):
+                inc("bags:one object twice")
             inc("bags:test=%d" % len(case["test"]))
             if isinstance(res, list):
                 inc("bags:shared=%d" % res[1])
@@ -1270,6 +1424,11 @@ class C06(Check):
             inc("feature:carg")
         if any(is_quant(e) for e in case["m1"]["rels"]):
             inc("feature:quantifier")
+        nq = {iv_of(e) for e in case["m1"]["rels"] if not is_quant(e)}
+        if any(is_quant(e) and iv_of(e) not in nq for e in case["m1"]["rels"]):
+            inc("feature:quantifier over a variable that is no intrinsic variable")
+            if any(tv(v) not in nq and ps for v, ps in case["m1"].get("vars", [])):
+                inc("feature:... with properties")
 
     def extra_evidence(self):
         return {"exhaustive_oracle_evaluations": self._brute}
